@@ -193,7 +193,7 @@ def elements(F, res, pol):
                 s = cfield(ri, '0')
                 e = canon(s[2]) if s[0] == 'seq' else None
                 goodi = s[0] == 'seq' and show(s[1]) == 'elem(section)!.items.Functions.0' and e is not None \
-                    and e == ('id', 'function', ('elem', canon(s[1])))
+                    and e == ('id', 'function', ('elem', canon(s[1]))) and not fl.reorders(w, s)
         else:
             goodi = ri[0] == 'ctor' and ri[2] == 'Expressions'
             if goodi:
@@ -203,7 +203,7 @@ def elements(F, res, pol):
                     if isinstance(k, tuple) and k[0] == 'atom' and v is True and 'RefType::' in repr(k[1]) and 'Expressions.0' in show(k[1]):
                         want_ty = show(k[1][3]).replace('()', '').replace('REF', '')
                 goodi = s[0] == 'seq' and show(s[1]) == 'elem(section)!.items.Expressions.1' and is_eval_of(s[2], 'elem(elem(section)!.items.Expressions.1)!') \
-                    and ty[0] == 'ctor' and want_ty is not None and ty[2].upper().replace('REF', '') == want_ty
+                    and ty[0] == 'ctor' and want_ty is not None and ty[2].upper().replace('REF', '') == want_ty and not fl.reorders(w, s)
         tag = items + ('' if items == 'Functions' else '/' + (show(cfield(ri, '0')) if ri[0] == 'ctor' and ri[3] else '?'))
         if goodi:
             if tag not in seen_i:
@@ -275,7 +275,8 @@ def elements(F, res, pol):
             goodi = els[0] == 'ctor' and els[2] == 'Functions'
             if goodi:
                 s = cfield(els, '0')
-                goodi = s[0] == 'seq' and show(s[1]) == Rs + '.items.Functions.0' and canon(s[2]) == ('idx', 'function', ('elem', canon(s[1])))
+                goodi = s[0] == 'seq' and show(s[1]) == Rs + '.items.Functions.0' and canon(s[2]) == ('idx', 'function', ('elem', canon(s[1]))) \
+                    and not fl.reorders(w, s)
         else:
             goodi = els[0] == 'ctor' and els[2] == 'Expressions'
             if goodi:
@@ -285,7 +286,7 @@ def elements(F, res, pol):
                     if isinstance(v, tuple) and v and v[0] == 'ctor' and v[1] == 'ty::RefType':
                         have = v[2].upper().replace('REF', '')
                 goodi = s[0] == 'seq' and show(s[1]) == Rs + '.items.Expressions.1' and is_reenc_of(s[2], 'elem(%s.items.Expressions.1)' % Rs) \
-                    and rt[0] == 'call' and have is not None and rt[1].split('::')[-1].replace('REF', '') == have
+                    and rt[0] == 'call' and have is not None and rt[1].split('::')[-1].replace('REF', '') == have and not fl.reorders(w, s)
                 key += '/' + str(have)
         if goodk and goodi and len(calls) == 1:
             seen.add((rk, ri))
@@ -542,7 +543,7 @@ def types_(F, res, pol):
             while s[0] == 'ok':
                 s = s[1]
             return s[0] == 'seq' and re.match(r'^%s\(elem\(.*section.*\)!?\)$' % which, show(s[1])) is not None \
-                and s[2][0] in ('call', 'ok') and 'parse(elem(' in show(s[2])
+                and s[2][0] in ('call', 'ok') and 'parse(elem(' in show(s[2]) and not fl.reorders(w, s)
         good = seq_ok(p, 'params') and seq_ok(r, 'results')
         if not good:
             res.bad('type/parse', 'a function type is recorded with params=%s results=%s' % (show(p)[:80], show(r)[:80]))
@@ -571,7 +572,8 @@ def types_(F, res, pol):
                 return sh[:-len(which) - 1]
             return None
         po, ro = owner(ps[1], 'params') if ps[0] == 'seq' else None, owner(rs[1], 'results') if rs[0] == 'seq' else None
-        good = po is not None and po == ro and 'to_wasmencoder_type(elem(' in show(ps[2]) and 'to_wasmencoder_type(elem(' in show(rs[2])
+        good = po is not None and po == ro and 'to_wasmencoder_type(elem(' in show(ps[2]) and 'to_wasmencoder_type(elem(' in show(rs[2]) \
+            and not fl.reorders(w, ps) and not fl.reorders(w, rs)
         if not good:
             res.bad('type/emit', 'a function type is emitted as function(%s, %s)' % (show(ps)[:80], show(rs)[:80]))
             return
